@@ -89,7 +89,7 @@ func VerifH_C08_batcher() {
 		addedAt[e] = vf.Now()
 		b.Add(e)
 	}
-	vf.Quiesce(4) // traffic stops; timers keep running
+	vf.Quiesce(1000) // traffic stops; timers keep running (1 s of logical time without other activity)
 
 	if twin {
 		vf.Assert(len(ctl.committed) < K, "all-committed-when-idle")
